@@ -80,7 +80,7 @@ theorem C07_attacked (p : Position) (sq side : Nat) (hs : side ≤ 1) (hk : sq <
     engine on the position do_move produced equals the rules' verdict on the position the rules prescribe —
     i.e. the legality filter of the rules can be evaluated on the engine's side (C02 + C07_check) -/
 theorem C07_check_after_move (T : ZTable) (p : Position) (m : Spec.SMove) (ok : StepOK (absPos p) m) (hp : PlyOK p)
-    (hh : p.halfmove < 255) (k : Nat)
+    (hh : p.halfmove < 65535) (k : Nat)
     (hb : BoardOK (doMove T p (codeOf (absPos p) m)).1.board)
     (hk : KingAt (doMove T p (codeOf (absPos p) m)).1.board p.side k)
     (hnear : kingNear (doMove T p (codeOf (absPos p) m)).1.board k (1 - p.side) = false) :
